@@ -489,7 +489,10 @@ impl G1 {
 
         let sign = bytes[0];
         debug_assert!(sign == 2 || sign == 3);
-        let x = Fq::from_slice(&bytes[1..]).ok_or(CurveError::InvalidEncoding)?;
+        // coordinates must be canonical (below q): no reduction here
+        let x = fields::Fq::from_slice(&bytes[1..])
+            .map(Fq)
+            .ok_or(CurveError::InvalidEncoding)?;
         let y_squared = (x * x * x) + Self::b();
         let mut y = y_squared.sqrt().ok_or(CurveError::NotMember)?;
         let is_even = sign & 1 == 0;
@@ -552,8 +555,13 @@ impl G1 {
             return Err(CurveError::InvalidEncoding);
         }
 
-        let x = Fq::from_slice(&bytes[..32]).ok_or(CurveError::InvalidEncoding)?;
-        let y = Fq::from_slice(&bytes[32..]).ok_or(CurveError::InvalidEncoding)?;
+        // coordinates must be canonical (below q): no reduction here
+        let x = fields::Fq::from_slice(&bytes[..32])
+            .map(Fq)
+            .ok_or(CurveError::InvalidEncoding)?;
+        let y = fields::Fq::from_slice(&bytes[32..])
+            .map(Fq)
+            .ok_or(CurveError::InvalidEncoding)?;
 
         AffineG1::new(x, y)
             .map_err(|_| CurveError::NotMember)
